@@ -14,7 +14,8 @@
      ref  <prog>   → trace of the reference semantics (`GV.Ctrl.evalF`)
      js   <prog>   → trace of the MiniJS semantics of `direct body` (`GV.Direct.evalJF`)
      skel <prog>   → per function `|`-separated skeleton of `direct body`
-     ds   <lv> <op>  → desugaring of `lv op= rhs`: temp names and result (`GV.Desugar`)
+     ds   <lv> <wi> <wb> <op>  → desugaring of `lv op= rhs` (lvalue form, index-operand wrapper, base-operand wrapper):
+                     temp names, and whether every opaque operand is hoisted exactly once (`GV.Desugar`)
   topic `nm`: the name allocator protocol of the C16 driver (model `GV.Names`), reused; `nm new` additionally seeds the
      root context with `GV.NamesPlain.reservedGlobals`.
 -/
@@ -142,6 +143,11 @@ def lvTarget (lv : Nat) (x j : Nat) : Nat :=
   | 5 => 21 + j          -- ps(id).x[ix(id,x)]
   | _ => x               -- the variable itself
 
+/-- Go bitwise operators on `int` values that fit 32 bits (two's complement) -/
+def bit32 (f : Nat → Nat → Nat) (a b : Int) : Int :=
+  let r := f (a.emod 4294967296).toNat (b.emod 4294967296).toNat
+  if r ≥ 2147483648 then (r : Int) - 4294967296 else (r : Int)
+
 def lvTrace (lv id j : Nat) (s : St) : St :=
   match lv with
   | 1 => s.print s!"p {id} {j}"
@@ -160,14 +166,22 @@ def doAct (P : Prog) (id : Nat) (s : St) : St :=
     let s := lvTrace lv id j s
     let tgt := lvTarget lv x j
     let yv := s.get y
-    let s := if op == 0 || op == 1 || op == 4 then s.print s!"t {id} {yv}" else s
+    let s := if op == 2 || op == 3 then s else s.print s!"t {id} {yv}"
     let old := s.get tgt
     let new := match op with
       | 0 => old + yv
       | 1 => old - yv
       | 2 => old + 1
       | 3 => old - 1
-      | _ => old.tmod (yv.emod 8 + 1)
+      | 4 => old.tmod (yv.emod 8 + 1)
+      | 5 => old * ((yv.emod 2) * 2 - 1)
+      | 6 => old.tdiv (yv.emod 4 + 1)
+      | 7 => bit32 (· ||| ·) old (yv.emod 1024)
+      | 8 => bit32 (· &&& ·) old (yv.emod 1024)
+      | 9 => bit32 (· ^^^ ·) old (yv.emod 1024)
+      | 10 => bit32 (fun a b => a &&& (4294967295 - b)) old (yv.emod 1024)
+      | 11 => old >>> (yv.emod 4).toNat
+      | _ => old          -- `<<= 0`
     s.set tgt new
   | [2, grp, i, j, _, _] =>
     let a := 13 + 4 * grp + and3 (s.get i)
@@ -282,7 +296,7 @@ def handleProg : List String → String
     match parseProg p with
     | some P => "|".intercalate (P.fns.toList.map fun b => " ".intercalate (skel (direct Ctx.top b)))
     | none => "bad-prog"
-  | ["ds", lv, op] => GV.Desugar.describe lv op
+  | ["ds", lv, wi, wb, op] => GV.Desugar.describe lv wi wb op
   | _ => "bad-op"
 
 def handle (st : GV.Driver.C16.NmState) : List String → GV.Driver.C16.NmState × String
